@@ -183,13 +183,15 @@ def m10(F, rep, rule="M10"):
     """The reconstruction decides "this is the last block" by running out of input; the analysis tells predict_block the
     same thing through its last_block argument, and a block flagged last leaves its token count implicit.  The flag must
     therefore be exactly "this is the final element of the block list" — any wider notion (the last block with tokens, the
-    last Huffman block ...) drops a count the reconstruction needs.  ⚠ enumerated forms: i == len-1, i+1 == len."""
+    last Huffman block ...) drops a count the reconstruction needs.  ⚠ enumerated forms: i == len-1, i+1 == len, i == len.saturating_sub(1)."""
     b = F.body("preflate_rs::process::predict_blocks")
     where = "%s:%s" % (b.file, b.line)
     calls = [(bb, t) for bb, t in b.calls() if strip_generics(callee_def(t)).endswith("TokenPredictor::predict_block")]
     LEN = r"len\(var\(blocks\)\)"
     forms = [r"^Eq\((.+), Sub\(%s, K1\)(\.0)?\)$" % LEN, r"^Eq\(Sub\(%s, K1\)(\.0)?, (.+)\)$" % LEN,
-             r"^Eq\(Add\((.+), K1\)(\.0)?, %s\)$" % LEN, r"^Eq\(%s, Add\((.+), K1\)(\.0)?\)$" % LEN]
+             r"^Eq\(Add\((.+), K1\)(\.0)?, %s\)$" % LEN, r"^Eq\(%s, Add\((.+), K1\)(\.0)?\)$" % LEN,
+             # the flag is only evaluated inside the loop over `blocks`, where len >= 1: saturating_sub(len, 1) = len - 1
+             r"^Eq\((.+), saturating_sub\(%s, K1\)\)$" % LEN, r"^Eq\(saturating_sub\(%s, K1\), (.+)\)$" % LEN]
     ds = [flow.describe(b, t["args"][3], names=True) if len(t["args"]) == 4 else "?" for bb, t in calls]
     ok = bool(calls) and all(any(re.match(f, d) for f in forms) for d in ds)
     rep.add(rule, "last-block-flag=final-element", ok, where, "predict_block(.., last_block = %s)" % ds)
